@@ -35,6 +35,7 @@ type task struct {
 	want      *vsync.RWMutex
 	write     bool
 	announced bool
+	hangup    bool
 	resume    chan struct{}
 	// result
 	msg      hwebsocket.Msg
@@ -191,12 +192,21 @@ func (s *sched) run(body func(t *task)) string {
 func (w *World) Conc(conns []int, forced []int) (*sched, bool) {
 	s := &sched{forced: forced}
 	for i, c := range conns {
-		s.tasks = append(s.tasks, &task{id: i, conn: c, resume: make(chan struct{})})
+		// a negative number: the connection goes away (HandleDisconnect) instead of handling a message
+		if c < 0 {
+			s.tasks = append(s.tasks, &task{id: i, conn: -c, hangup: true, resume: make(chan struct{})})
+		} else {
+			s.tasks = append(s.tasks, &task{id: i, conn: c, resume: make(chan struct{})})
+		}
 	}
 	w.canon.LastSid, w.canon.LastPing = 0, 0
 	dead := s.run(func(t *task) {
 		cs := w.conns[t.conn]
 		if cs == nil || !cs.alive {
+			return
+		}
+		if t.hangup {
+			cs.v.Disconnect(nil)
 			return
 		}
 		t.msg, t.handled, t.err, t.panicked = cs.v.HandleNext()
@@ -205,6 +215,13 @@ func (w *World) Conc(conns []int, forced []int) (*sched, bool) {
 	var parts, outs []string
 	for _, t := range s.tasks {
 		req := "none"
+		if t.hangup {
+			req = "hangup"
+			if cs := w.conns[t.conn]; cs != nil && cs.alive && t.state == tsDone {
+				cs.alive = false
+				w.know.dead(t.conn)
+			}
+		}
 		if t.handled {
 			if r := w.byNanos[t.msg.Time.Nanosecond()]; r != nil {
 				req = r.Tokens()
